@@ -506,6 +506,26 @@ pub mod prelude {
             display_u16(x).len() == 1 || display_u16(x)[0] != 48u8
     {}
 
+    // R20: formatting.  A `Formatter` is modelled by the bytes written to it so far.
+    pub uninterp spec fn fmt_out(f: std::fmt::Formatter<'_>) -> Seq<u8>;
+    /// what Display prints for the argument types used by ppp (std's own printers)
+    pub trait DisplayBytes { spec fn display_bytes(&self) -> Seq<u8>; }
+    impl DisplayBytes for Ipv4Addr { open spec fn display_bytes(&self) -> Seq<u8> { display_ipv4(*self) } }
+    impl DisplayBytes for Ipv6Addr { open spec fn display_bytes(&self) -> Seq<u8> { display_ipv6(*self) } }
+    impl DisplayBytes for u16 { open spec fn display_bytes(&self) -> Seq<u8> { display_u16(*self) } }
+    #[verifier::external_body]
+    pub fn fmt_lit(f: &mut std::fmt::Formatter<'_>, s: &str) -> (r: std::fmt::Result)
+        ensures r is Ok ==> fmt_out(*final(f)) == fmt_out(*old(f)) + sb(s)
+    { f.write_str(s) }
+    #[verifier::external_body]
+    pub fn fmt_arg<T: std::fmt::Display + DisplayBytes>(f: &mut std::fmt::Formatter<'_>, x: &T) -> (r: std::fmt::Result)
+        ensures r is Ok ==> fmt_out(*final(f)) == fmt_out(*old(f)) + x.display_bytes()
+    { write!(f, "{}", x) }
+    #[verifier::external_body]
+    pub broadcast proof fn axiom_cow_as_ref_str<'a, 'b>(c: &'b std::borrow::Cow<'a, str>)
+        ensures sb(#[trigger] cow_as_ref_spec::<str>(c)) == cow_str_bytes(*c)
+    {}
+
     // Option::filter with a specified predicate
     pub assume_specification<T, P: FnOnce(&T) -> bool>[ Option::<T>::filter ](o: Option<T>, p: P) -> (r: Option<T>)
         requires o matches Some(x) ==> p.requires((&x,))
@@ -579,7 +599,7 @@ pub mod prelude {
     }
     pub broadcast group prelude_str_axioms {
         axiom_str_ext_bytes, axiom_str_ext_chars, axiom_str_len_bound, axiom_pat_starts_str, axiom_pat_ends_str,
-        axiom_pat_starts_char, axiom_pat_find_char, axiom_cow_deref_str, lemma_first_index_bounds, lemma_first_index_prefix,
+        axiom_pat_starts_char, axiom_pat_find_char, axiom_cow_deref_str, axiom_cow_as_ref_str, lemma_first_index_bounds, lemma_first_index_prefix,
         axiom_u16_parse_empty, axiom_slice_len_bound,
     }
     pub broadcast group prelude_parse_axioms {
